@@ -255,7 +255,7 @@ func probeMain(args []string) {
 	}
 	for _, q := range args[1:] {
 		for _, mode := range []string{"row", "batch"} {
-			out, sh := RunOn(q, pairs, RunOpts{Mode: mode, BSize: bs, Cache: true})
+			out, sh := RunOn(q, pairs, RunOpts{Mode: mode, BSize: bs, Cache: true, AltModes: os.Getenv("KVH_ALT")})
 			fmt.Printf("Q[%s] %s\n  phase=%s err=%s/%q plan=%v\n", mode, q, out.Phase, out.ErrKind, out.ErrMsg, out.Explain)
 			for _, r := range out.Rows {
 				fmt.Printf("  row: %v\n", r)
